@@ -2,6 +2,7 @@ package symex
 
 import (
 	"fmt"
+	"regexp"
 	"go/types"
 	"strings"
 	"time"
@@ -33,11 +34,24 @@ type Intercept func(c *CallCtx, st *State, args []Value) []Outcome
 
 func one(st *State, ret Value) []Outcome { return []Outcome{{St: st, Ret: ret}} }
 
+var typeArgsRe = regexp.MustCompile(`\[[^\[\]]*\]`)
+
+// funcKey names a function for the intercept table; type arguments and type parameters of
+// generic functions and methods are stripped: "(pkg.T[K,V]).Set" and "(pkg.T[string,X]).Set[...]"
+// both become "(pkg.T).Set".
 func funcKey(fn *ssa.Function) string {
+	s := fn.String()
 	if o := fn.Origin(); o != nil {
-		return o.String()
+		s = o.String()
 	}
-	return fn.String()
+	for strings.Contains(s, "[") {
+		n := typeArgsRe.ReplaceAllString(s, "")
+		if n == s {
+			break
+		}
+		s = n
+	}
+	return s
 }
 
 func (f *frame) cloneWith(st *State) *frame {
